@@ -112,6 +112,10 @@ pub struct FormattingOptions {
     pub listing: ListingOptions,
 }
 
+/// The widest column the formatter pads to. `format!` cannot pad any further than this (it panics with
+/// "Formatting argument out of range"), so every width that is derived from the options is capped here.
+pub const MAX_COLUMN: usize = u16::MAX as usize;
+
 struct CodeFormatter {
     tree: Arc<ParseTree>,
     options: FormattingOptions,
@@ -830,6 +834,12 @@ pub fn format<P: Into<PathBuf>>(
 fn join_chunks(chunks: Vec<Chunk>, options: &FormattingOptions) -> String {
     let mut result = vec![];
     let num_chunks = chunks.len();
+    let label_margin = options.whitespace.label_margin.min(MAX_COLUMN);
+    let comment_column = options
+        .whitespace
+        .label_margin
+        .saturating_add(options.whitespace.code_margin)
+        .min(MAX_COLUMN);
 
     let mut line: String = "".into();
     let mut indent = None;
@@ -854,14 +864,14 @@ fn join_chunks(chunks: Vec<Chunk>, options: &FormattingOptions) -> String {
                                 format!(
                                     "{:<width$}",
                                     format!("{} ", str),
-                                    width = options.whitespace.label_margin
+                                    width = label_margin
                                 )
                             }
                             Alignment::Right => {
                                 format!(
                                     "{:>width$}",
                                     format!("{} ", str),
-                                    width = options.whitespace.label_margin
+                                    width = label_margin
                                 )
                             }
                         };
@@ -881,7 +891,7 @@ fn join_chunks(chunks: Vec<Chunk>, options: &FormattingOptions) -> String {
                             "{:<width$}{}",
                             line,
                             str,
-                            width = options.whitespace.label_margin
+                            width = label_margin
                         );
                     }
                 }
@@ -904,8 +914,7 @@ fn join_chunks(chunks: Vec<Chunk>, options: &FormattingOptions) -> String {
                             "{:<width$}{}",
                             line,
                             str,
-                            width =
-                                options.whitespace.label_margin + options.whitespace.code_margin
+                            width = comment_column
                         );
                     } else {
                         // Add comment in-line (making sure 'line' has at least a minimum width) and add a space at the end to cleanly separate it
@@ -913,7 +922,7 @@ fn join_chunks(chunks: Vec<Chunk>, options: &FormattingOptions) -> String {
                             "{:<width$}{} ",
                             line,
                             str,
-                            width = options.whitespace.label_margin
+                            width = label_margin
                         );
                     }
                 }
@@ -933,7 +942,7 @@ fn join_chunks(chunks: Vec<Chunk>, options: &FormattingOptions) -> String {
                 } else {
                     // If the line only consists of comments, move them to the 'code' column
                     // (a margin that falls inside a multi-byte character means the columns before it are not blank)
-                    let margin = options.whitespace.label_margin + options.whitespace.code_margin;
+                    let margin = comment_column;
                     if line.len() > margin && line.is_char_boundary(margin) {
                         let (label_code, comment) = line.split_at(margin);
                         if label_code.trim().is_empty() {
@@ -941,7 +950,7 @@ fn join_chunks(chunks: Vec<Chunk>, options: &FormattingOptions) -> String {
                                 "{:<width$}{}",
                                 "",
                                 comment,
-                                width = options.whitespace.label_margin
+                                width = label_margin
                             );
                             had_standalone_comment = true;
                         } else {
@@ -959,7 +968,7 @@ fn join_chunks(chunks: Vec<Chunk>, options: &FormattingOptions) -> String {
                         "{:<indent$}{}",
                         "",
                         line,
-                        indent = indent.unwrap_or_default()
+                        indent = indent.unwrap_or_default().min(MAX_COLUMN)
                     )
                     .trim_end()
                     .to_string();
